@@ -194,7 +194,17 @@ func C11(job *Job, r *Report) {
 
 func C12(job *Job, r *Report) {
 	r.Level = "model_checking"
-	r.Rule = "same scripts and delivery variants (whole, every 2-segment split, cut at every byte; core scripts of 3 and 4 letters whole) as C11 with value sizes on both sides of body_c_str (64) and of the compression threshold; after each run (all input consumed or cut, then forced flush) the invariant is evaluated: every request-limiter token is back (len(RL.Chan)==cap) and GetData, SetData, FlushData and AllocRL have count = size = 0; a server that would block on the token channel is detected structurally before it blocks; glibc MALLOC_PERTURB_ poisons freed C buffers so that a use after free shows up as wrong reply bytes (C11's oracle) and a double free aborts the worker"
+	r.Rule = "same scripts and delivery variants (whole, every 2-segment split, cut at every byte; core scripts of 3 and 4 letters whole) as C11 with value sizes on both sides of body_c_str (64) and of the compression threshold; after each run (all input consumed or cut, then forced flush) the invariant is evaluated: every request-limiter token is back (len(RL.Chan)==cap) and GetData, SetData, FlushData and AllocRL have count = size = 0; a server that would block on the token channel is detected structurally before it blocks; glibc MALLOC_PERTURB_ poisons freed C buffers so that a use after free shows up as wrong reply bytes (C11's oracle) and a double free aborts the worker. part (b): 4 scenarios of 2-3 connections served concurrently (gets, set of a C-allocated value, delete, incr) with FEWER request tokens than connections; the token channel operations are blocking scheduling points (and the instant after a send), every interleaving at token, lock, file-system and spawn points with at most N preemptions (quick 2, thorough 3) is executed; at quiescence all tokens back, counters zero, one valid reply per complete command; a connection blocked for ever on the token channel is a deadlock"
 	r.Assumptions = []string{"connections are served one after the other (command-granularity interleaving of two connections is covered by the second-connection probe)", "OOM refusal paths are not reachable with the configured limits"}
-	protoExplore(job, r, "C12")
+	if job.Part == "" || job.Part == "a" {
+		protoExplore(job, r, "C12")
+	}
+	if job.Part == "" || job.Part == "b" {
+		pb := 2
+		if job.Tier != "quick" {
+			pb = 3
+		}
+		runScenarios(&Job{Check: job.Check, Tier: job.Tier, Shard: job.Shard, NShards: job.NShards, Seed: job.Seed}, r, c12bScenarios(), []int{pb}, -1)
+		r.Bounds["preemption_bound_completed_part_b"] = pb
+	}
 }
